@@ -24,6 +24,7 @@ func init() {
 			"R4 the function handing out the channel tests a terminated flag that the exit chain sets under the connection mutex and, on that edge, closes the channel it returns; " +
 			"R5 the reader switch's source field is written only in the switch's Read under the switch mutex (and in constructors), every other switch field only under that mutex, and the copier is started by `go` at most once (the func field is cleared in the same critical section); " +
 			"R6 each library goroutine exits on termination: the connection loop leaves on read error, the copier has no loop of its own, the watchdog's every loop has a select case on the CloseNotify channel whose edge returns. " +
+			"R7 every call of the notifier lies on the loop's exit chain or behind a Close of the transport / of the pipe fed from it on every path of its function, and the Conn implementation's Close closes the transport on every path. " +
 			"Not decided: event orderings as executed schedules, io.Pipe/io.Copy internals, SCTP error-handler delivery.",
 		Rules: map[string]string{
 			"R1": "close(notify channel): mutex held, gone-flag test (or fresh channel), flag set after; channel assigned only under mutex when nil",
@@ -32,8 +33,9 @@ func init() {
 			"R4": "CloseNotify after termination returns an already closed channel (terminated flag set by the exit chain under the mutex)",
 			"R5": "reader switch ownership: source swapped only inside Read under the switch mutex; copier started at most once",
 			"R6": "library goroutines (loop, copier, watchdog) exit on connection termination",
+			"R7": "the notifier runs only after the transport was closed / its end observed; a local Close closes the transport on every path",
 		},
-		MinInstances: map[string]int{"R1": 2, "R2": 1, "R3": 2, "R4": 1, "R5": 3, "R6": 3},
+		MinInstances: map[string]int{"R1": 2, "R2": 1, "R3": 2, "R4": 1, "R5": 3, "R6": 3, "R7": 3},
 		Assumptions:  []string{"io.Pipe: a closed PipeReader makes PipeWriter.Write return; io.Copy returns when the source fails", "close of a nil or closed channel panics (Go semantics)"},
 	})
 }
@@ -616,6 +618,89 @@ func runC14(c *Ctx) {
 
 	// ---- R6 ----
 	c.c14Goroutines(loopFn, copiers)
+
+	// ---- R7: only when the connection is gone ----
+	// (a) the notifier is called only where termination is certain: on the loop's exit chain, or after a call
+	// that ends the transport / observed its end (Close of the connection, CloseWithError of the pipe fed
+	// from it) on every path of the calling function
+	isTerm := func(in ssa.Instruction) bool {
+		ci, ok := in.(ssa.CallInstruction)
+		if !ok {
+			return false
+		}
+		com := ci.Common()
+		if com.IsInvoke() && com.Method.Name() == "Close" {
+			t := com.Value.Type()
+			if flow.TypeIs(t, "net", "Conn") || flow.TypeIs(t, pkgDiam, "MultistreamConn") {
+				return true
+			}
+		}
+		if o := flow.CalleeObj(ci); o != nil && o.Pkg() != nil && o.Pkg().Path() == "io" && flow.RecvTypeName(o.Type().(*types.Signature)) == "PipeWriter" && strings.HasPrefix(o.Name(), "Close") {
+			return true
+		}
+		return false
+	}
+	for nf := range ro.notifiers {
+		// the function that hands the channel out closes it only on its terminated-flag edge (R4): calling it
+		// is requesting a notification, not delivering one
+		handsOut := false
+		if nf.Signature.Results().Len() == 1 {
+			for _, rv := range flow.ReturnValues(nf, 0) {
+				if _, fld, _, ok := flow.FieldOf(flow.Peel(rv)); ok && fld == ro.notifyFld {
+					handsOut = true
+				}
+			}
+		}
+		if handsOut {
+			continue
+		}
+		for _, cs := range c.librarySites(nf) {
+			f := cs.Parent()
+			key := fname(f) + ":notifies-only-after-termination"
+			if exitChain[f] || ro.notifiers[f] {
+				r.Ok("R7", key, c.pos(cs), "on the connection loop's exit chain (the transport was closed by the deferred closure)")
+				continue
+			}
+			if p := flow.PathAvoiding(f, nil, func(in ssa.Instruction) bool { return in == ssa.Instruction(cs) }, isTerm); p != nil {
+				r.Fail("R7", key, c.pos(cs), "CloseNotify channels are closed on a path on which the connection has not been terminated (no Close of the transport, no end of its byte stream observed): the notification fires while messages are still being dispatched", c.witness(p)...)
+			} else {
+				r.Ok("R7", key, c.pos(cs), "every path to the notifier passes a Close of the transport or of the pipe fed from it")
+			}
+		}
+	}
+	// (b) a local Close terminates: the Conn implementation's Close closes the transport on every path
+	for _, f := range c.P.LibraryFuncs() {
+		if f.Name() != "Close" || f.Signature.Recv() == nil || pkgOf(f).Path() != pkgDiam || f.Signature.Params().Len() != 0 {
+			continue
+		}
+		rt := f.Signature.Recv().Type()
+		connI := c.P.NamedType("diam", "Conn")
+		if connI == nil {
+			continue
+		}
+		iface, _ := connI.Underlying().(*types.Interface)
+		if iface == nil || !types.Implements(rt, iface) {
+			continue
+		}
+		// only the implementation that wraps a transport (has a path to a net.Conn Close at all or not)
+		if n := flow.NamedOf(rt); n == nil || n.Obj().Pkg() == nil || strings.Contains(n.Obj().Name(), "SCTP") {
+			continue
+		}
+		key := fname(f) + ":local-close-closes-transport"
+		isTransportClose := func(in ssa.Instruction) bool {
+			ci, ok := in.(ssa.CallInstruction)
+			if !ok {
+				return false
+			}
+			com := ci.Common()
+			return com.IsInvoke() && com.Method.Name() == "Close" && (flow.TypeIs(com.Value.Type(), "net", "Conn") || flow.TypeIs(com.Value.Type(), pkgDiam, "MultistreamConn"))
+		}
+		if p := flow.PathAvoiding(f, nil, flow.IsReturn, isTransportClose); p != nil {
+			r.Fail("R7", key, c.fpos(f), "Close of the connection does not close the transport on every path: after a local Close the connection may never terminate (reader goroutine and CloseNotify channels stay)", c.witness(p)...)
+		} else {
+			r.Ok("R7", key, c.fpos(f), "every path through Close closes the transport")
+		}
+	}
 }
 
 func isRunDefers(in ssa.Instruction) bool {
